@@ -30,6 +30,22 @@ def setconf_vector(args, keysok, ctx="idle"):
     except Exception:
         err = True
     extra = b""
+    if ctx == "repeat":
+        # the same call was made before on this connection (and answered, if it was written at all):
+        # what is recorded is the second call, which must fare exactly like a first one
+        first_err = err or bool(fired and isinstance(fired[0], failure.Failure))
+        if tr.value():
+            tr.clear()
+            p.dataReceived(b"250 OK\r\n")
+        fired = []
+        err = False
+        try:
+            p.set_conf(*args).addBoth(fired.append)
+        except Exception:
+            err = True
+        if (err or bool(fired and isinstance(fired[0], failure.Failure))) != first_err:
+            err = True
+            extra = b"SETCONF ?second-call-differs\r\n"
     if ctx == "queued":
         extra = tr.value()      # nothing may be written while a reply is outstanding
         tr.clear()
@@ -93,7 +109,19 @@ NOISE = {
 CANCELLED_REPLY = b"250-version=0.4.8.0\r\n250 OK\r\n"
 
 
+SPLIT_EVENT = (b"650-CONF_CHANGED\r\n650-SocksPo", b"rt=9150\r\n650 OK\r\n")
+
+
 def _noise(proto, noise, when):
+    """see _noise_raw; an exception escaping the protocol while the noise is delivered is a (recorded) failure"""
+    try:
+        _noise_raw(proto, noise, when)
+        return None
+    except Exception:
+        return failure.Failure()
+
+
+def _noise_raw(proto, noise, when):
     """noise = <shape>@<when>: an unsolicited event before the command is issued or before its reply;
     cancel@before: an earlier command is in flight whose caller has given up (cancelled its Deferred):
     Tor still answers it, and the answer must not be taken for the next command's"""
@@ -102,6 +130,10 @@ def _noise(proto, noise, when):
     shape, at = noise.split("@")
     if shape == "twin":
         return          # handled by the GETINFO vector itself
+    if shape == "split":
+        # a multi-line event is half received when the command is issued; the rest arrives before the reply
+        proto.dataReceived(SPLIT_EVENT[0 if when == "before" else 1])
+        return
     if shape == "cancel":
         if when == "before":
             d0 = proto.get_info("version")
@@ -124,15 +156,16 @@ def getinfo_vector(kvs, seg="whole", rng=None, noise="none"):
     p = run.proto
     fired = []
     twin = []
+    broke = None
     if noise == "twin@before":
         # the connection is busy, and an identical request (another caller's) is already waiting in the queue
         p.queue_command("GETINFO version").addErrback(lambda f: None)
         p.get_info(*[k for k, _, _ in kvs]).addBoth(twin.append)
     else:
-        _noise(p, noise, "before")
+        broke = _noise(p, noise, "before")
     p.get_info(*[k for k, _, _ in kvs]).addBoth(fired.append)
     if noise != "twin@before":
-        _noise(p, noise, "during")
+        broke = broke or _noise(p, noise, "during")
     wire = []
     for key, block, lines in kvs:
         if block:
@@ -151,6 +184,8 @@ def getinfo_vector(kvs, seg="whole", rng=None, noise="none"):
     except Exception:
         fired.append(failure.Failure())
     res = fired[0] if fired else None
+    if broke is not None:
+        res = broke
     if noise == "twin@before" and (not twin or isinstance(twin[0], failure.Failure) or twin[0] != res):
         res = failure.Failure(RuntimeError("the identical request queued before this one got %r" % (twin[:1],)))
     return dict(p="C13", cmd="GETINFO", kvs=[dict(key=b(k), block=bl, lines=[b(l) for l in ls]) for k, bl, ls in kvs],
@@ -162,9 +197,9 @@ def getconf_vector(key, unset, vals, seg="whole", rng=None, noise="none"):
     run = cc.Run(wrap=False)
     p = run.proto
     fired = []
-    _noise(p, noise, "before")
+    broke = _noise(p, noise, "before")
     p.get_conf(key).addBoth(fired.append)
-    _noise(p, noise, "during")
+    broke = broke or _noise(p, noise, "during")
     if unset:
         wire = ["250 %s" % key]
     else:
@@ -175,6 +210,8 @@ def getconf_vector(key, unset, vals, seg="whole", rng=None, noise="none"):
     except Exception:
         fired.append(failure.Failure())
     res = fired[0] if fired else None
+    if broke is not None:
+        res = broke
     return dict(p="C13", cmd="GETCONF", key=b(key), unset=unset, vals=[b(v) for v in vals],
                 wire=[b(w) for w in wire], res=_result(res, [key]), seg=seg, noise=noise, kvs=[])
 
